@@ -1,6 +1,6 @@
 (* Lemmas for C12 (scene traversal), over any carrier whose + * - form a commutative ring. *)
 From Coq Require Import List Bool ZArith NArith Ring Lia.
-From PC Require Import Base.Py Base.Mat Gen.Transforms Model.Traverse.
+From PC Require Import Base.Py Base.Mat Gen.Transforms Gen.Bound Model.Traverse.
 Import ListNotations.
 
 Section TraverseProofs.
@@ -129,37 +129,67 @@ Section TraverseProofs.
   Lemma objects_instance : forall k M t, objects O k M (SInst t) = objects O k M t.
   Proof. reflexivity. Qed.
 
-  (* ---- bound vertices and normals *)
-  Ltac mred := cbv [bound_vertex bound_normal row_times_3x3 mtrans mapply point direction xyz vadd lin_apply
-                    translation mcol3 mget m00 m01 m02 m03 m10 m11 m12 m13 m20 m21 m22 m23 m30 m31 m32 m33
-                    bound_light bound_camera col_opp] in *.
+  (* appending children in place appends their objects after those already there *)
+  Lemma objects_children_app : forall k M own c1 c2,
+    objects O k M (SNode own (c1 ++ c2)) = objects O k M (SNode own c1) ++ objects O k M (SNode own c2).
+  Proof.
+    intros k M own c1 c2. cbn [objects]. set (down := node_children_matrix O M own). clearbody down.
+    induction c1 as [|c r IH]; [reflexivity|]. cbn [app]. rewrite IH. apply app_assoc.
+  Qed.
+  Lemma scene_objects_app : forall k s1 s2, scene_objects O k (s1 ++ s2) = scene_objects O k s1 ++ scene_objects O k s2.
+  Proof. intros. unfold scene_objects. apply flat_map_app. Qed.
+
+  (* ---- bound vertices and normals: the generated expressions of the three binding classes *)
+  Ltac mred := cbv [bound_vertex bound_normal triangleset_bound_vertex triangleset_bound_normal polylist_bound_vertex
+                    polylist_bound_normal lineset_bound_vertex lineset_bound_normal block_row block_col slice_col slice_row
+                    vopp mtrans mapply point direction xyz vadd vsub lin_apply translation mcol3 mget mset Nat.add
+                    m00 m01 m02 m03 m10 m11 m12 m13 m20 m21 m22 m23 m30 m31 m32 m33
+                    bound_light bound_camera point_light_position directional_light_direction spot_light_position
+                    spot_light_direction spot_light_up perspective_camera_position perspective_camera_direction
+                    perspective_camera_up orthographic_camera_position orthographic_camera_direction
+                    orthographic_camera_up] in *.
   Ltac vec_eq := repeat match goal with
                        | |- (_, _) = (_, _) => apply f_equal2
                        | |- Some _ = Some _ => apply f_equal
                        | |- @None _ = @None _ => reflexivity
                        end.
+  Ltac by_class pk := destruct pk as [|[|pk]].
 
-  Lemma bound_vertex_is_apply : forall M v, bound_vertex O M v = xyz (mapplyR M (point r1 v)).
-  Proof. intros [] [[v0 v1] v2]. mred. vec_eq; ring. Qed.
-  Lemma bound_vertex_is_Rv_plus_t : forall M v,
-    bound_vertex O M v = vadd (oadd O) (lin_apply (oadd O) (omul O) M v) (translation r0 M).
-  Proof. intros [] [[v0 v1] v2]. mred. vec_eq; ring. Qed.
-  Lemma bound_normal_is_apply : forall M n, bound_normal O M n = xyz (mapplyR M (direction r0 n)).
-  Proof. intros [] [[v0 v1] v2]. mred. vec_eq; ring. Qed.
-  Lemma bound_normal_is_Rn : forall M n, bound_normal O M n = lin_apply (oadd O) (omul O) M n.
-  Proof. intros [] [[v0 v1] v2]. mred. vec_eq; ring. Qed.
+  Lemma bound_vertex_is_apply : forall pk M v, bound_vertex O pk M v = xyz (mapplyR M (point r1 v)).
+  Proof. intros pk [] [[v0 v1] v2]. by_class pk; mred; vec_eq; ring. Qed.
+  Lemma bound_vertex_is_Rv_plus_t : forall pk M v,
+    bound_vertex O pk M v = vadd (oadd O) (lin_apply (oadd O) (omul O) M v) (translation r0 M).
+  Proof. intros pk [] [[v0 v1] v2]. by_class pk; mred; vec_eq; ring. Qed.
+  Lemma bound_normal_is_apply : forall pk M n, bound_normal O pk M n = xyz (mapplyR M (direction r0 n)).
+  Proof. intros pk [] [[v0 v1] v2]. by_class pk; mred; vec_eq; ring. Qed.
+  Lemma bound_normal_is_Rn : forall pk M n, bound_normal O pk M n = lin_apply (oadd O) (omul O) M n.
+  Proof. intros pk [] [[v0 v1] v2]. by_class pk; mred; vec_eq; ring. Qed.
   (* normals are not translated *)
-  Lemma bound_normal_ignores_translation : forall M x y z n,
-    bound_normal O (mset (mset (mset M 0 3 x) 1 3 y) 2 3 z) n = bound_normal O M n.
-  Proof. intros [] x y z [[v0 v1] v2]. reflexivity. Qed.
+  Lemma bound_normal_ignores_translation : forall pk M x y z n,
+    bound_normal O pk (mset (mset (mset M 0 3 x) 1 3 y) 2 3 z) n = bound_normal O pk M n.
+  Proof. intros pk [] x y z [[v0 v1] v2]. by_class pk; reflexivity. Qed.
+
+  (* a bound skin binds its geometry with matrix . bind_shape_matrix: the vertices are M.(B.v) *)
+  Lemma skin_vertices : forall pk M B v,
+    bound_vertex O pk (skin_matrix O M B) v = xyz (mapplyR M (mapplyR B (point r1 v))).
+  Proof.
+    intros. rewrite bound_vertex_is_apply. unfold skin_matrix, skin_geometry_matrix.
+    rewrite (mapply_mmul R r0 r1 (oadd O) (omul O) (osub O) (oopp O) Rth). reflexivity.
+  Qed.
+  Lemma skin_normals : forall pk M B n,
+    bound_normal O pk (skin_matrix O M B) n = xyz (mapplyR M (mapplyR B (direction r0 n))).
+  Proof.
+    intros. rewrite bound_normal_is_apply. unfold skin_matrix, skin_geometry_matrix.
+    rewrite (mapply_mmul R r0 r1 (oadd O) (omul O) (osub O) (oopp O) Rth). reflexivity.
+  Qed.
 
   (* ---- material lookup *)
   Lemma find_app_full : forall (A : Type) (f : A -> bool) l1 l2,
     find f (l1 ++ l2) = match find f l1 with Some x => Some x | None => find f l2 end.
   Proof. induction l1 as [|x l1 IH]; intro l2; simpl; [reflexivity|]. destruct (f x); [reflexivity|apply IH]. Qed.
 
-  Lemma dget_dset : forall (d : dict) k v s,
-    dget N.eqb (dset N.eqb d k v) s = if N.eqb s k then Some v else dget (V := N) N.eqb d s.
+  Lemma dget_dset : forall (V : Type) (d : dict (K := N) (V := V)) k v s,
+    dget N.eqb (dset N.eqb d k v) s = if N.eqb s k then Some v else dget N.eqb d s.
   Proof.
     induction d as [|[k' v'] d IH]; intros k v s; simpl.
     - reflexivity.
@@ -170,69 +200,71 @@ Section TraverseProofs.
         * apply IH.
   Qed.
 
-  Lemma fold_dset_get : forall (b : binds) (d : dict) s,
-    dget N.eqb (fold_left (fun d sm => dset N.eqb d (fst sm) (snd sm)) b d) s =
-    match last_binding b s with Some m => Some m | None => dget (V := N) N.eqb d s end.
+  (* the table built by the loop  table[mat.symbol] = mat  over the bindings in order *)
+  Lemma fold_table_get : forall (b : binds) (d : dict (K := N) (V := N * N)) s,
+    dget N.eqb (fold_left (fun table mat => dset N.eqb table (fst mat) mat) b d) s =
+    match find (fun sm => N.eqb s (fst sm)) (rev b) with Some sm => Some sm | None => dget N.eqb d s end.
   Proof.
     induction b as [|[k v] b IH]; intros d s.
     - reflexivity.
-    - cbn [fold_left fst snd]. rewrite IH. unfold last_binding. cbn [rev].
-      rewrite find_app_full. destruct (find (fun sm => N.eqb s (fst sm)) (rev b)) as [sm|]; [reflexivity|].
-      cbn [find fst snd]. rewrite dget_dset. destruct (N.eqb s k); reflexivity.
+    - cbn [fold_left fst]. rewrite IH. cbn [rev]. rewrite find_app_full.
+      destruct (find (fun sm => N.eqb s (fst sm)) (rev b)) as [sm|]; [reflexivity|].
+      cbn [find fst]. rewrite dget_dset. destruct (N.eqb s k); reflexivity.
   Qed.
 
-  Lemma material_is_last_binding : forall b s, material_of b s = last_binding b s.
+  Lemma material_is_last_binding : forall ctrl pk b s, material_of ctrl pk b s = last_binding b s.
   Proof.
-    intros b s. unfold material_of, material_dict. rewrite fold_dset_get.
-    destruct (last_binding b s); reflexivity.
+    intros ctrl pk b s. unfold material_of, last_binding, controller_node_material_table, geometry_node_material_table,
+      triangleset_material, polylist_material, lineset_material.
+    destruct ctrl; by_class pk; rewrite fold_table_get;
+      destruct (find (fun sm => N.eqb s (fst sm)) (rev b)); reflexivity.
   Qed.
-  Lemma material_none : forall b s, (forall sm, In sm b -> fst sm <> s) -> material_of b s = None.
+  Lemma material_none : forall ctrl pk b s, (forall sm, In sm b -> fst sm <> s) -> material_of ctrl pk b s = None.
   Proof.
-    intros b s H. rewrite material_is_last_binding. unfold last_binding.
+    intros ctrl pk b s H. rewrite material_is_last_binding. unfold last_binding.
     destruct (find (fun sm => N.eqb s (fst sm)) (rev b)) as [sm|] eqn:E; [|reflexivity].
     apply find_some in E. destruct E as [Hin Heq]. apply in_rev in Hin. apply N.eqb_eq in Heq.
     elim (H sm Hin). symmetry; exact Heq.
   Qed.
   (* a binding of another symbol (surplus, or simply a different one) does not matter *)
-  Lemma material_surplus_ignored : forall b1 b2 s' m s, s' <> s ->
-    material_of (b1 ++ (s', m) :: b2) s = material_of (b1 ++ b2) s.
+  Lemma material_surplus_ignored : forall ctrl pk b1 b2 s' m s, s' <> s ->
+    material_of ctrl pk (b1 ++ (s', m) :: b2) s = material_of ctrl pk (b1 ++ b2) s.
   Proof.
-    intros b1 b2 s' m s Hne. rewrite !material_is_last_binding. unfold last_binding.
+    intros ctrl pk b1 b2 s' m s Hne. rewrite !material_is_last_binding. unfold last_binding.
     rewrite !rev_app_distr. cbn [rev]. rewrite <- app_assoc. rewrite !find_app_full. cbn [app find fst].
     destruct (N.eqb_spec s s') as [E|_]; [congruence|]. reflexivity.
   Qed.
-  (* of two bindings of the symbol the later one wins *)
-  Lemma material_last_wins : forall b1 b2 s m, (forall sm, In sm b2 -> fst sm <> s) ->
-    material_of (b1 ++ (s, m) :: b2) s = Some m.
+  (* of two bindings of the symbol the later one wins; in particular one appended in place *)
+  Lemma material_last_wins : forall ctrl pk b1 b2 s m, (forall sm, In sm b2 -> fst sm <> s) ->
+    material_of ctrl pk (b1 ++ (s, m) :: b2) s = Some m.
   Proof.
-    intros b1 b2 s m H. rewrite material_is_last_binding. unfold last_binding.
+    intros ctrl pk b1 b2 s m H. rewrite material_is_last_binding. unfold last_binding.
     rewrite rev_app_distr. cbn [rev]. rewrite <- app_assoc, find_app_full.
     destruct (find (fun sm => N.eqb s (fst sm)) (rev b2)) as [sm|] eqn:E.
     - apply find_some in E. destruct E as [Hin Heq]. apply in_rev in Hin. apply N.eqb_eq in Heq.
       elim (H sm Hin). symmetry; exact Heq.
     - cbn [app find fst snd]. rewrite N.eqb_refl. reflexivity.
   Qed.
+  Lemma material_appended : forall ctrl pk b s m, material_of ctrl pk (b ++ [(s, m)]) s = Some m.
+  Proof. intros. apply material_last_wins. intros sm []. Qed.
 
   (* ---- lights and cameras *)
-  Lemma point_light_position : forall M pos,
-    bound_light O 0 pos pos M = (Some (xyz (mapplyR M (point r1 pos))), None, None).
-  Proof. intros [] [[p0 p1] p2]. mred. vec_eq; ring. Qed.
+  Lemma point_light_position_is : forall M pos dir,
+    bound_light O 0 pos dir M = (Some (xyz (mapplyR M (point r1 pos))), None, None).
+  Proof. intros [] [[p0 p1] p2] dir. mred. vec_eq; ring. Qed.
   Lemma point_light_at_origin : forall M dir,
     bound_light O 0 (r0, r0, r0) dir M = (Some (translation r0 M), None, None).
   Proof. intros [] dir. mred. vec_eq; ring. Qed.
-  Lemma directional_light_direction : forall M pos dir,
+  Lemma directional_light_direction_is : forall M pos dir,
     bound_light O 1 pos dir M = (None, Some (xyz (mapplyR M (direction r0 dir))), None).
   Proof. intros [] pos [[d0 d1] d2]. mred. vec_eq; ring. Qed.
-  Lemma directional_light_default : forall M pos,
-    bound_light O 1 pos (r0, r0, oopp O r1) M = (None, Some (col_opp O M 2), None).
-  Proof. intros [] pos. mred. vec_eq; ring. Qed.
   Lemma spot_light_frame : forall M pos dir,
     bound_light O 2 pos dir M =
     (Some (xyz (mapplyR M (r0, r0, r0, r1))), Some (xyz (mapplyR M (r0, r0, oopp O r1, r0))),
      Some (xyz (mapplyR M (r0, r1, r0, r0)))).
   Proof. intros [] pos dir. mred. vec_eq; ring. Qed.
-  Lemma camera_frame : forall M,
-    bound_camera O M =
+  Lemma camera_frame : forall ck M,
+    bound_camera O ck M =
     (xyz (mapplyR M (r0, r0, r0, r1)), xyz (mapplyR M (r0, r0, oopp O r1, r0)), xyz (mapplyR M (r0, r1, r0, r0))).
-  Proof. intros []. mred. vec_eq; ring. Qed.
+  Proof. intros ck []. destruct ck; mred; vec_eq; ring. Qed.
 End TraverseProofs.
